@@ -6,15 +6,12 @@
       (see the header of Props/C27.lean; the correct statement is `poly_force_deriv_is_derivative`).
       Not a defect of the code: every caller multiplies by −x.
 
-  (2) `clamped_ctrl_derivative_witness` — GENUINE DEFECT.  `_qderiv_actuator_passive_vel` multiplies the
-      velocity gain by the RAW `ctrl_in`, while `_actuator_force` first clamps ctrl to `ctrlrange`
-      (`ctrllimited`, clamping not disabled).  For a stateless affine actuator with gainprm = (0,0,1),
-      ctrlrange = [−1,1], ctrl = 3, the force the generated `_actuator_force` stores is  v ↦ 1·v  (derivative 1),
-      the generated derivative kernel stores 3.  Reproduced on the real code (CPU probe,
-      `<general joint="j" gainprm="0 0 1" gaintype="affine" biastype="affine" ctrllimited="true"
-      ctrlrange="-1 1"/>`, qvel 1, ctrl 3, implicitfast): finite-difference d(qfrc_actuator)/d(qvel) = 1.00005,
-      `deriv_smooth_vel` gives qDeriv = (M − out)/h = 3.0000; MuJoCo C 3.13 `d.qDeriv` = 1.
-      (With ctrl = 0.5 all three agree on 0.5.)
+  (2) (removed) `clamped_ctrl_derivative_witness` — the velocity derivative of affine actuators used the RAW
+      control while `_actuator_force` clamps it to `ctrlrange` (ctrl = 3, ctrlrange [−1,1], velocity gain 1:
+      force derivative 1, stored derivative 3; MuJoCo C 3.13 `d.qDeriv` = 1).  REPAIRED in /repo commit
+      "fix: velocity derivative of affine actuators used the raw control…".  The same scenario is now the positive
+      theorem `clamped_ctrl_derivative_repaired` in Props/C27.lean, and `qderiv_uses_same_ctrl_as_force` states
+      the repaired property for all actuator types.
 
   (3) `poly_potential_not_exact_witness` — artefact of the ℝ model only: the decimal literal
       0.3333333333333333 for Python's 1.0/3.0 makes d/dx poly_potential = 0.9999999999999999·x² ≠ x·k(x) = x²
@@ -36,45 +33,6 @@ theorem poly_force_deriv_literal_witness :
     funext fun x => (poly_force_linear 1 x 1).1
   rw [hf, (poly_force_linear 1 0 1).2] at h
   have := h.unique (hasDerivAt_const (0:ℝ) (1:ℝ))
-  norm_num at this
-
-/-- the force `_actuator_force` stores for a stateless affine actuator with gainprm = (0,0,1), biasprm = 0,
-    ctrl = 3, ctrl-limited with ctrlrange [−1,1], as a function of the actuator velocity v -/
-noncomputable def clampedForce (v : ℝ) : ℝ :=
-  Write.lookupF
-    (_actuator_force (K := ℝ) 0 (fun _ => 0.01) (fun _ => 0) (fun _ => 1) (fun _ => 1) (fun _ => 0) (fun _ => 0)
-      (fun _ _ => V10.zero) (fun _ _ => ⟨0, 0, 1, 0, 0, 0, 0, 0, 0, 0⟩) (fun _ _ => V10.zero)
-      (fun _ => false) (fun _ _ => ⟨0, 0⟩) (fun _ => false) (fun _ => false) (fun _ _ => ⟨0, 0⟩)
-      (fun _ => true) (fun _ _ => ⟨-1, 1⟩) (fun _ _ => 0) (fun _ _ => ⟨0, 0⟩)
-      (fun _ _ => 0) (fun _ _ => 3) (fun _ _ => 0) (fun _ _ => v) 0 (fun _ _ => 0) (fun _ _ => 0)
-      1 1 1 1 1 1 1 1 1 0 0) "actuator_force_out" [0, 0] 0
-
-/-- what `_qderiv_actuator_passive_vel` stores for the same actuator, same ctrl -/
-noncomputable def clampedVelDeriv : ℝ :=
-  Write.lookupF
-    (_qderiv_actuator_passive_vel (fun _ => (0.01:ℝ)) (fun _ => 0) (fun _ => 1) (fun _ => 1) (fun _ => 0)
-      (fun _ => 0) (fun _ _ => V10.zero) (fun _ _ => ⟨0, 0, 1, 0, 0, 0, 0, 0, 0, 0⟩)
-      (fun _ _ => V10.zero) (fun _ => false) (fun _ _ => ⟨0, 0⟩) (fun _ => false)
-      (fun _ => false) (fun _ _ => ⟨0, 0⟩) (fun _ _ => 0) (fun _ _ => 3) (fun _ _ => 0) (fun _ _ => 0)
-      (fun _ _ => 0) 1 1 1 1 1 1 0 0) "vel_out" [0, 0] 0
-
-theorem clampedForce_eq (v : ℝ) : clampedForce v = v := by
-  unfold clampedForce _actuator_force
-  simp [Write.lookupF, Scalar.clamp, V10.zero, V10.fill]
-
-theorem clampedVelDeriv_eq : clampedVelDeriv = 3 := by
-  unfold clampedVelDeriv
-  rw [qderiv_actuator_vel_affine _ _ _ _ _ _ _ _ _ _ _ _ _ _ _ _ _ _ _ _ _ _ _ _ _ _ _ rfl rfl (by simp)]
-  simp [Write.lookupF, velInput, V10.zero, V10.fill]
-
-/-- (2) the stored velocity derivative (3) is not the derivative of the stored force (which is 1) -/
-theorem clamped_ctrl_derivative_witness (v : ℝ) :
-    HasDerivAt clampedForce 1 v ∧ clampedVelDeriv = 3 ∧ ¬ HasDerivAt clampedForce clampedVelDeriv v := by
-  have hf : clampedForce = fun v => v := funext clampedForce_eq
-  have h1 : HasDerivAt clampedForce 1 v := by rw [hf]; exact hasDerivAt_id' v
-  refine ⟨h1, clampedVelDeriv_eq, fun h => ?_⟩
-  have := h.unique h1
-  rw [clampedVelDeriv_eq] at this
   norm_num at this
 
 /-- (3) ℝ-model artefact: poly = (1, 0), x = 1 -/
